@@ -144,7 +144,7 @@ def tlc(module, cfg, workdir=None, workers=8, timeout=900, extra=None, env=None,
     # a generous thread stack: deeply recursive operators (long pipes, long histories) must not fail when the
     # machine is busy and the JIT has not kicked in yet
     if 'Xss' not in e.get('JAVA_TOOL_OPTIONS', ''):
-        e['JAVA_TOOL_OPTIONS'] = (e.get('JAVA_TOOL_OPTIONS', '') + ' -Xss1g').strip()
+        e['JAVA_TOOL_OPTIONS'] = (e.get('JAVA_TOOL_OPTIONS', '') + ' -Xss256m').strip()
     if env:
         e.update(env)
     t0 = time.time()
